@@ -355,7 +355,7 @@ def check_dispatcher(ctx):
     ctx.rule('C10.1', "the dispatcher maps exactly 'closest', 'lower', 'higher' to the three scans, forwards (x, lookup) in order and fill_not_valid to the two "
                       "one-sided scans; any other strategy raises ValueError")
     fi = ctx.prog.func(DISPATCH)
-    lits = dispatch_fallthrough(ctx, DISPATCH, 'strategy', 'search strategy', 3)
+    lits = dispatch_fallthrough(ctx, DISPATCH, 'strategy', 'search strategy', ['closest', 'lower', 'higher'])
     ctx.check(sorted(lits) == ['closest', 'higher', 'lower'], 'C10.1', 'dispatched names', f"{lits}", fi.loc(), fi.qualname, 'names')
     L, Q = sym.sym('L'), sym.sym('Q')
     x, lk = arr_param('x', length=L), arr_param('lookup', length=Q)
